@@ -74,7 +74,8 @@ TZ_SETTINGS = [None, "UTC", "EST5EDT,M3.2.0,M11.1.0",
 # simulated instants: year ends / century ends +-1 s, leap day, mid-year
 CLOCKS = [946684799.0, 946684800.0, 946684801.0, 2524607999.0, 2524608000.0,
           4102444799.0, 4102444800.0, 1709164800.0, 1e9, 1735689599.0,
-          1735689600.0, 1751328000.0, 915148799.0]
+          1735689600.0, 1751328000.0, 915148799.0, 2854656000.0,
+          3328041600.0]
 
 
 def TARGET_FILES(cls):
